@@ -270,7 +270,8 @@ pub fn run(tier: Tier) -> i32 {
     rep.stats.count("pairs", jobs.len() as u64);
     // triples / quads over a small mixed subset (every kind, needles <= 2, one regex pair)
     let sub_src = [
-        "a", "ab", "a*", "ab*", "*a", "*ba", "*a*", "*ab*", "ia", "iab", "ia*", "i*a", "i*B*", "i*ab*",
+        "*a*", "*ab*", "i*a*", "i*ab*", "a*", "*a", "ia*", "i*a",
+        "a", "ab", "ab*", "*ba", "ia", "iab", "i*B*",
         "?a", "?b$", "i?^a", "", "*", "'a'", "b", "*b", "b*", "iB", "?^a.*b$", "i?A|b", "aa", "*aa",
     ];
     let sub: Vec<&Single> = sub_src
